@@ -1,5 +1,5 @@
 PROP = {
-    "claim": "Proof: over the Lean model of the 0xFF46 write and of the copy loop in MemoryAreas::run_clock_cycles, for every "
+    "claim": "(dev_batch_add, dev_partition_invariant, sys_ok_create / _write / _time) WHOLE-MACHINE batch independence: for the device function Sys.dev = MemoryAreas::run_clock_cycles as the code composes it (one DMA byte, then timer + LCD + joypad catch up with that machine cycle, ...), a + b clocks in one call leave exactly the state that a clocks then b clocks leave - OAM, all other memory, DIV/TIMA, LCD position, frame counter, joypad request, IF, DMA progress - for every source page INCLUDING the I/O page whose registers change during the copy, every progress, every reachable state; hence any partition into batches of whole machine cycles. Built from the timer's and the LCD's batch additivity (C13, C14), OR-accumulation of IF, a zero-clock catch-up being the identity right after a catch-up, and split / frame lemmas for the copy loop. Proof: over the Lean model of the 0xFF46 write and of the copy loop in MemoryAreas::run_clock_cycles, for every "
              "well-formed bus state, every source page 0..255 and every progress, (dma_batch) a catch-up batch of c clocks copies "
              "exactly the bytes off..min(off+c/4,160)-1 in ascending order, each OAM byte afterwards reading what its source address "
              "XX00+i read through the whole memory map (banked ROM, cartridge RAM, echo, I/O, OAM itself) before the batch, every "
@@ -26,7 +26,7 @@ PROP = {
                  "induction over partitions) + generated differential correspondence on the real MemoryAreas::run_clock_cycles",
     "streams": [{"name": "c16", "shards": {"quick": 2, "thorough": 16}},
                 {"name": "c16.inv", "shards": {"quick": 1, "thorough": 4}}],
-    "modules": ["GbVerif.Model.Bus", "GbVerif.Model.Cart", "GbVerif.Proofs.BusBasic", "GbVerif.Proofs.BusWf", "GbVerif.Proofs.BusDma"],
+    "modules": ["GbVerif.Model.Sys", "GbVerif.Model.Timer", "GbVerif.Model.Lcd", "GbVerif.Proofs.SysTotal", "GbVerif.Proofs.SysBatch", "GbVerif.Proofs.Timer", "GbVerif.Proofs.Lcd", "GbVerif.Proofs.BusIo", "GbVerif.Model.Bus", "GbVerif.Model.Cart", "GbVerif.Proofs.BusBasic", "GbVerif.Proofs.BusWf", "GbVerif.Proofs.BusDma"],
     "exhaustive": False,
     "rule": "c16: one scenario = cartridge (6 configurations: ROM only, MBC1/MBC3 with 0/2K/32K/128K RAM) x source page (quick: 40 "
             "pages incl. 0x00 0x3F 0x40 0x7F 0x80 0x9F 0xA0 0xBF 0xC0 0xDF 0xE0 0xFD 0xFE 0xFF; thorough: all 256) x partition style "
